@@ -213,10 +213,33 @@ func (ms *Modules) resolveIdentities() []error {
 
 	// Now, we can find all transitive identities by recursively populating
 	// the children of each identity.
+	//
+	// The lists are replaced one by one while the dictionary is walked, so
+	// the walk goes by the direct children as they are now. (Walking the
+	// lists themselves meant walking lists that had already been replaced
+	// by whole closures, each element compared with everything collected so
+	// far: a chain of 2000 identities, 60 kB of text, took four minutes.)
+	direct := make(map[*Identity][]*Identity, len(ms.typeDict.identities.dict))
+	for _, i := range ms.typeDict.identities.dict {
+		direct[i.Identity] = i.Identity.Values
+	}
 	for _, i := range ms.typeDict.identities.dict {
 		newValues := []*Identity{}
-		for _, j := range i.Identity.Values {
-			newValues = addChildren(j, newValues)
+		seen := map[*Identity]bool{}
+		var add func(r *Identity)
+		add = func(r *Identity) {
+			if seen[r] {
+				// r and its children have already been added.
+				return
+			}
+			seen[r] = true
+			newValues = append(newValues, r)
+			for _, ch := range direct[r] {
+				add(ch)
+			}
+		}
+		for _, j := range direct[i.Identity] {
+			add(j)
 		}
 		for _, v := range newValues {
 			if v == i.Identity {
